@@ -412,7 +412,11 @@ Section Step.
     {| s_user := u; s_logged := l; s_cwd := c; s_rnfr := s_rnfr s; s_rest := s_rest s;
        s_passive := s_passive s; s_data := s_data s; s_ended := s_ended s |}.
 
-  (* int(rest) after rest.isdigit(): None = int() raises (isdigit is wider than isdecimal) *)
+  (* str.isascii() *)
+  Definition str_isascii (s : text) : bool := forallb (fun c => (0 <=? c) && (c <? 128)) s.
+
+  (* int(rest) after rest.isascii() and rest.isdigit(): None = int() raises (isdigit alone is wider than what int()
+     accepts; with the isascii() guard the None case is unreachable, Proofs/SessionShape.rest_never_crashes) *)
   Definition int_of_digits (s : text) : option Z :=
     fold_left (fun acc c => match acc, decimal_val c with
                             | Some a, Some d => Some (a * 10 + d)
@@ -520,14 +524,14 @@ Section Step.
     else if String.eqb name "epsv" then
       match arg with
       | [] => (set_sess w (set_passive s), mk_out [code "229"], true)
-      | _ => (w, mk_out [code "522"], false)
+      | _ => (w, mk_out [code "522"], true)
       end
     else if String.eqb name "abor" then reply w "226"
     else if String.eqb name "rest" then
-      if str_isdigit arg then
+      if str_isascii arg && str_isdigit arg then
         match int_of_digits arg with
         | Some z => (set_sess w (set_rest s z), mk_out [code "350"], true)
-        | None => (w, mk_out [], false)         (* int() raises ValueError: the dispatcher drops the session *)
+        | None => (w, mk_out [], false)         (* int() would raise: unreachable for ASCII digits (rest_never_crashes) *)
         end
       else (set_sess w (set_rest s 0), mk_out [code "501"], true)
     else if String.eqb name "syst" then reply w "215"
@@ -570,6 +574,9 @@ Section Step.
       | Some h =>
           let w0 := if is_transfer (e_verb e) then w else set_sess w (set_rest (w_s w) 0) in
           let '(w1, o, keep) := handler 3 h (e_arg e) (e_data e) false w0 in
+          (* the dispatcher hands the pending offset to a transfer command (transfer_offset, read by the worker:
+             here the handler simply still sees s_rest) and clears restart_offset after EVERY known verb *)
+          let w1 := if is_transfer (e_verb e) then set_sess w1 (set_rest (w_s w1) 0) else w1 in
           ((if keep then w1 else set_sess w1 (end_sess (w_s w1))), o)
       end.
 
